@@ -460,6 +460,12 @@ func (g *genPkg) genFunc(fi *FuncInfo, specNames map[string]bool) error {
 		c.GoName = g.fresh(fmt.Sprintf("%s_loop%d_dec", base, k))
 		fmt.Fprintf(&g.buf, "func %s%s(%s) int { return int(%s) }\n", c.GoName, fi.TParams, joinDecl(pre, d), rewriteExpr(c.Expr))
 	}
+	for lab, cs := range fc.LabelInv {
+		for _, c := range cs {
+			c.GoName = g.fresh(base + "_label_" + sanitize(lab))
+			g.emitBoolFunc(c.GoName, fi.TParams, joinDecl(pre, "AX, BX, CX, DX, BP, SI, DI, R8, R9, R10, R11 uint64"), c.Expr, c.Line, "label invariant")
+		}
+	}
 	emitMod := func(m *ModItem, extra string) {
 		m.GoName = g.fresh(base + "_mod")
 		ex := rewriteExpr(m.Expr)
